@@ -1025,10 +1025,26 @@ class AstEval:
             else:
                 self.sym_table[imp.name if imp.asname is None else imp.asname] = getattr(mod, imp.name)
 
+    async def aeval_test(self, arg):
+        """Evaluate an expression that is only tested for truth (if, while, assert, ...).
+
+        Like Python's compiler, and/or/not become control flow in such a context, so the truth of each
+        operand is tested exactly once (as a value, `x or y` tests x and the statement would test it again).
+        """
+        if isinstance(arg, ast.BoolOp):
+            is_and = isinstance(arg.op, ast.And)
+            for arg1 in arg.values:
+                if (await self.aeval_test(arg1)) != is_and:
+                    return not is_and
+            return is_and
+        if isinstance(arg, ast.UnaryOp) and isinstance(arg.op, ast.Not):
+            return not await self.aeval_test(arg.operand)
+        return bool(await self.aeval(arg))
+
     async def ast_if(self, arg):
         """Execute if statement."""
         val = None
-        if await self.aeval(arg.test):
+        if await self.aeval_test(arg.test):
             for arg1 in arg.body:
                 val = await self.aeval(arg1)
                 if isinstance(val, EvalStopFlow):
@@ -1066,7 +1082,7 @@ class AstEval:
 
     async def ast_while(self, arg):
         """Execute while statement."""
-        while await self.aeval(arg.test):
+        while await self.aeval_test(arg.test):
             for arg1 in arg.body:
                 val = await self.aeval(arg1)
                 if isinstance(val, EvalStopFlow):
@@ -1517,7 +1533,7 @@ class AstEval:
 
     async def ast_assert(self, arg):
         """Execute assert statement."""
-        if not await self.aeval(arg.test):
+        if not await self.aeval_test(arg.test):
             if arg.msg:
                 raise AssertionError(await self.aeval(arg.msg))
             raise AssertionError
@@ -1793,7 +1809,7 @@ class AstEval:
         for loop_var in await self.aeval(gen.iter):
             await self.recurse_assign(gen.target, loop_var)
             for cond in gen.ifs:
-                if not await self.aeval(cond):
+                if not await self.aeval_test(cond):
                     break
             else:
                 if len(generators) == 1:
@@ -1833,7 +1849,7 @@ class AstEval:
         for loop_var in await self.aeval(gen.iter):
             await self.recurse_assign(gen.target, loop_var)
             for cond in gen.ifs:
-                if not await self.aeval(cond):
+                if not await self.aeval_test(cond):
                     break
             else:
                 if len(generators) == 1:
@@ -1869,7 +1885,7 @@ class AstEval:
         for loop_var in await self.aeval(gen.iter):
             await self.recurse_assign(gen.target, loop_var)
             for cond in gen.ifs:
-                if not await self.aeval(cond):
+                if not await self.aeval_test(cond):
                     break
             else:
                 if len(generators) == 1:
@@ -1969,7 +1985,7 @@ class AstEval:
 
     async def ast_ifexp(self, arg):
         """Evaluate if expression."""
-        return await self.aeval(arg.body) if (await self.aeval(arg.test)) else await self.aeval(arg.orelse)
+        return await self.aeval(arg.body) if (await self.aeval_test(arg.test)) else await self.aeval(arg.orelse)
 
     async def ast_num(self, arg):
         """Evaluate number."""
